@@ -1,5 +1,6 @@
 import Pcore.Proofs.FormatUnparse
 import Pcore.Proofs.FormatContainer
+import Pcore.Proofs.FormatRef
 import Pcore.Generated.FormatLetters
 /-!
 # C20 — String formatting is total and faithful to the format directive
@@ -48,6 +49,8 @@ Full statement / proved / missing
 * `C20_width`          — scalars: at least `w` runes wide (letters whose digits come from fmt's float code excluded).
 * `C20_pad_side_text`, `C20_pad_side_pbB`, `C20_pad_side_int` — blanks on the left unless `-`; zeros only from fmt's
                          integer code (between sign/prefix and digits, by `C20_int_ref_partial`) and the b/B precision.
+* `C20_container_rec`  — for values of any depth: the model of ToString2 = the directly written recursive reference
+                         renderer `refVal`, under any per-type map with non-alt container formats (hash format ≠ a).
 * `C20_container_array`, `C20_container_hash` — non-alt: left delimiter ++ intercalate (separator ++ " ") (element
                          renderings) ++ right delimiter; elements that are containers fall under the same theorems.
 * missing: the digits of `%e %f %g %a` (fmt/strconv float formatting is a parameter `FloatIO`; only the dispatch,
@@ -399,6 +402,21 @@ theorem C20_container_hash (io : FloatIO) (m : FMap) (ind : Ind) (es : List Entr
           (texts.map (fun p => p.1 ++ (getFormat m .hash).f.sep2.getD " => ".toList ++ p.2)) ++
         (delimPair (getFormat m .hash).f.ldelim '{').2) :=
   fmtVal_hash io m ind es texts hl halt hind hc
+
+/-- **containers, recursively**: for values of ANY depth and any per-type format map whose container formats are
+    non-alt (and whose Hash format is not `a`), the rendering computed by the model of `ToString2` (with its
+    indentation bookkeeping, first/subsequent element states and container-format switching) IS the reference rendering
+    `refVal`: delimiter ++ intercalate (separator ++ " ") (element renderings) ++ delimiter, a container element under the
+    same map, any other element under the container formats — recursively -/
+theorem C20_container_rec (io : FloatIO) (m : FMap) (v : Val) (h : PlainContainers m) :
+    format io m v = refVal io m v := fmtVal_ref io v m Ind.default rfl h
+
+/-- non-vacuity of `C20_container_rec`: the default formats, three levels deep (a hash under the default format `%s`
+    takes that record's delimiter `[`) -/
+example : PlainContainers [] ∧
+    refVal io0 [] (.array [.int 1, .array [.str ['a'], .hash [.mk (.int 2) (.array [])]]]) =
+      .text "[1, ['a', [2 => []]]]".toList := by
+  refine ⟨by decide +kernel, by decide +kernel⟩
 
 /-- non-vacuity: nested containers, an element format from a per-type map, a changed separator and delimiter
     (the nested hash falls to the default format `%s`, whose record carries the delimiter `[`) -/
